@@ -56,6 +56,7 @@ def gen_cases(rng, tier):
                                nspecies=rng.choice([1, 2, 2, 3, 3, 4]), with_forms=not unique)
     if groute == "api":
       model["api_containers"] = rng.choice([None, None, "tuple", "generator", "map", "amend_after_write"])
+      model["api_extra_density_keys"] = (i % 3 == 0)
     if not unique and i % 4 == 1 and len(model["density"]) >= 2:
       # two A->B definitions that read the same once the blanks between their tokens are removed ('1 25' / '12 5')
       a, b, c = rng.randint(1, 9), rng.randint(1, 9), rng.randint(1, 9)
@@ -180,6 +181,8 @@ def run_case(case, ctx):
   ctx.cls("route:" + route)
   if model.get("api_containers"):
     ctx.cls("api_containers:" + model["api_containers"])
+  if model.get("api_extra_density_keys") and route.startswith("api") and model["type"] == "fs":
+    ctx.cls("density_dictionaries_with_extra_species")
   ctx.cls("target:" + model["target"])
   ref = eamref.EamRef(model, potable)
   order = ref.order
